@@ -23,6 +23,7 @@ sys.path.insert(0, os.path.join(os.path.dirname(os.path.abspath(__file__)), ".."
 import absorb
 import aicheck
 import roots
+import structure as st
 import vlib
 
 
@@ -37,25 +38,16 @@ def jobs_for(s):
 
 
 def mu_sites(job):
-    out = []
-    for x in absorb.sites(job, "xof"):
-        p = x["path"]
-        if not (p.endswith("sign_internal>h256_xof") or p.endswith("verify_internal>h256_xof")):
-            continue
-        it = x["items"]
-        if it and it[0]["len"] == [64, 64] and it[0]["src"].startswith("in.self"):
-            out.append(x)
-    return out
+    """the SHAKE256 instance whose first absorbed item is the key's 64-byte tr (exact-copy provenance of the key
+    struct handed to the entry point) - bound by dataflow, wherever in the call tree it is created"""
+    side = "sk.tr" if ":sign:" in job["id"] else "pk.tr"
+    return [x for x in st.dedup(absorb.sites(job, "xof")) if x["kind"] == "Shake256" and x["items"] and x["items"][0]["len"] == [64, 64]
+            and x["items"][0].get("tag") == side and len(x["items"]) >= 2]
 
 
 def norm_items(items):
-    """list comparable between sign and verify: sources renamed to roles"""
-    out = []
-    for i, it in enumerate(items):
-        src = it["src"]
-        role = "tr" if i == 0 else ("ctx" if src.startswith("in.ctx") else "message" if src.startswith("in.message") else "oid" if ".oid" in src else "phm" if ".phm" in src else "tmp")
-        out.append((role, tuple(it["len"]), it["consts"], it["lin"], it["whole"]))
-    return out
+    """list comparable between sign and verify: position, lengths, constants, exact forms (no names)"""
+    return [(i, tuple(it["len"]), it["consts"], it["lin"], it["whole"], "ctx" if it["src"].startswith("in.ctx") else "message" if it["src"].startswith("in.message") else "") for i, it in enumerate(items)]
 
 
 def main(tier):
@@ -128,22 +120,22 @@ def analyse(rep, ob, sets, prefix="", sides=("sign", "verify"), extra_opts=None,
                 name, kind, oid, dlen = absorb.OIDS[k]
                 ob(it[4]["len"] == [11, 11] and it[4]["consts"] == oid, "R3:oid:%s:%s" % (side, name),
                    {"rule": "R3 the OID of %s is the 11 DER bytes of FIPS 204" % name, "entry": j["root"], "set": s, "item": it[4], "expected": oid})
-                ob(it[5]["len"] == [dlen, dlen] and ".phm" in it[5]["src"], "R3:digest-length:%s:%s" % (side, name),
+                ob(it[5]["len"] == [dlen, dlen], "R3:digest-length:%s:%s" % (side, name),
                    {"rule": "R3 PH(M) of %s has %d bytes" % (name, dlen), "entry": j["root"], "set": s, "item": it[5]})
                 # provenance of PH(M): one hasher of the right kind over the whole message, written to phm[0..dlen]
                 if kind == "Shake128":
                     hs = [x for x in absorb.sites(j, "xof") if x["kind"] == "Shake128" and x["path"].endswith("hash_message")]
                     rd = [d for x in hs for d in absorb.reads(j, x["id"])]
                     okp = len(hs) == 1 and len(hs[0]["items"]) == 1 and hs[0]["items"][0]["whole"] and hs[0]["items"][0]["src"].startswith("in.message") \
-                        and len(rd) == 1 and rd[0]["len"] == str(dlen) and rd[0]["dest"].endswith(".phm") and rd[0]["dest_start"] == "0" and rd[0]["off"] == "0..0"
+                        and len(rd) == 1 and rd[0]["len"] == str(dlen) and rd[0]["dest"] == it[5]["src"].split("[")[0] and rd[0]["dest_start"] == "0" and rd[0]["off"] == "0..0"
                     seen = {"hashers": [x["rendered"][:120] for x in hs], "reads": rd}
                 else:
                     hs = [x for x in absorb.sites(j, "digest") if x["path"].endswith("hash_message")]
                     cp = [p["data"] for p in j["probes"] if p["what"] == "digest_copy"]
                     okp = len(hs) == 1 and hs[0]["kind"] == kind and len(hs[0]["items"]) == 1 and hs[0]["items"][0]["whole"] and hs[0]["items"][0]["src"].startswith("in.message") \
-                        and len(cp) == 1 and cp[0]["kind"] == kind and cp[0]["dest"].endswith(".phm") and cp[0]["dest_start"] == "0" and cp[0]["dest_len"] == str(dlen)
+                        and len(cp) == 1 and cp[0]["kind"] == kind and cp[0]["dest"] == it[5]["src"].split("[")[0] and cp[0]["dest_start"] == "0" and cp[0]["dest_len"] == str(dlen)
                     seen = {"hashers": [(x["kind"], x["rendered"][:120]) for x in hs], "copies": cp}
-                ob(okp, "R3:prehash:%s:%s" % (side, name), {"rule": "R3 PH(M) is %s over the whole message, stored at phm[0..%d]" % (name, dlen), "entry": j["root"], "set": s, "seen": seen})
+                ob(okp, "R3:prehash:%s:%s" % (side, name), {"rule": "R3 PH(M) is %s over the whole message, stored at bytes 0..%d of the buffer that mu absorbs" % (name, dlen), "entry": j["root"], "set": s, "seen": seen})
             if len(samples) < 8:
                 samples.append({"set": s, "entry": side, "mode": mode, "mu_absorb_list": mus[0]["rendered"]})
         for mode in ("pure", "ph0", "ph1", "ph2"):
